@@ -171,9 +171,16 @@ func isPipeChannel(ch *gomavlib.Channel, p *sim.Pipe) bool {
 	if ch == nil {
 		return false
 	}
+	if sc, isSerial := ch.Endpoint().Conf().(gomavlib.EndpointSerial); isSerial {
+		v, _ := serialPipeOf.Load(sc.Device)
+		return v == p
+	}
 	conf, ok := ch.Endpoint().Conf().(gomavlib.EndpointCustom)
 	return ok && conf.ReadWriteCloser == p
 }
+
+// serialPipeOf: device name of a hooked serial endpoint -> the pipe that stands for the device.
+var serialPipeOf sync.Map
 
 // eventChannel returns the channel an event belongs to.
 func eventChannel(ev gomavlib.Event) *gomavlib.Channel {
